@@ -37,12 +37,12 @@ class C05(Check):
         for h in G.corpus_hex():
             blobs.append((bytes.fromhex(h), "corpus"))
         # real transactions whose identifier is recorded in the repository's tests (block-explorer data)
-        self.known = {}
+        self.known_ids = {}
         import os
         kp = os.path.join(G.HERE, "corpus", "tx_ids.txt")
         for l in open(kp):
             h, i = l.split()
-            self.known[h] = i
+            self.known_ids[h] = i
             blobs.append((bytes.fromhex(h), "known-id"))
         descs = []
         shapes = G.grid_shapes()
@@ -75,7 +75,14 @@ class C05(Check):
             if len(b) < 4000:
                 for _ in range(6):
                     muts.append((G.multi_mutation(b, rng, 1), "mutated"))
-        cs = [Case("txid %s %s" % (sz, b.hex()), cls) for b, cls in blobs + muts]
+        cs = []
+        for k, (b, cls) in enumerate(blobs + muts):
+            if k % 7 == 0:
+                # a FAILED encoding (writer too short) right before an id computation on the same thread: the id is a function
+                # of the transaction's bytes alone, so nothing an earlier call left behind may influence it
+                v = rng.choice([300, 2 ** 14, 2 ** 63, 2 ** 64 - 1])
+                cs.append(Case("encshort %s varint %d %d" % (sz, rng.randint(0, 1), v), "failing-write-before-id"))
+            cs.append(Case("txid %s %s" % (sz, b.hex()), cls))
         seen, out = set(), []
         for c in cs:
             if c.line not in seen:
@@ -94,9 +101,10 @@ class C05(Check):
             c.nontrivial = True
         out_built = [c for c in built if c.line not in seen]
         # boundaries from the library's own parsers, for the oracle
-        parts = self.impl_query(["txparts %s %s" % (sz, c.line.split(" ")[2]) for c in out])
-        self.parts = {c.line: p for c, p in zip(out, parts)}
-        for c in out:
+        txc = [c for c in out if c.line.startswith("txid ")]
+        parts = self.impl_query(["txparts %s %s" % (sz, c.line.split(" ")[2]) for c in txc])
+        self.parts = {c.line: p for c, p in zip(txc, parts)}
+        for c in txc:
             c.nontrivial = self.parts[c.line].startswith("OK")
         return out + out_built
 
@@ -104,6 +112,8 @@ class C05(Check):
         w = impl.split(" ")
         if w[0] in ("PANIC", "ABORT", "TIMEOUT", "SIZES-MISMATCH"):
             return "implementation did not return: " + w[0]
+        if case.line.startswith("encshort "):
+            return None
         if case.line.startswith("txhash_desc "):
             return None if w[0] == "OK" else "hash() of a transaction value did not return: " + impl[:60]
         pw = self.parts[case.line].split(" ")
@@ -115,7 +125,7 @@ class C05(Check):
         if w[1] != want:
             return "id %s but Monero's definition on the received bytes gives %s (version %d, p=%d, q=%d, type %s)" % (
                 w[1], want, version, p, q, rtype)
-        kid = self.known.get(case.line.split(" ")[2])
+        kid = self.known_ids.get(case.line.split(" ")[2])
         if kid and w[1] != kid:
             return "id %s but the recorded Monero identifier of this transaction is %s" % (w[1], kid)
         if w[2] != keccak(b[:p]).hex():
